@@ -53,7 +53,7 @@ def check(tier):
                     if l in prev and prev[l] != o:
                         changed += 1
                     prev[l] = o
-                if "TWIN-DIFF" in o:
+                if "TWIN-DIFF" in o or "?" in o:
                     s, e = runner.script_of(lines, i)
                     fails.append(dict(mode=m, script=lines[s:e], message="%s returned %s" % (l, o), observed=o))
             elif o.startswith("err") or "other:" in o:
